@@ -1773,9 +1773,12 @@ IMATH_HOSTDEVICE
             throw std::domain_error ("Cannot normalize point at infinity.");
     }
 
-    x = vx / vw;
-    y = vy / vw;
-    z = vz / vw;
+    // Divide in the source type and convert the quotient, exactly as
+    // the unchecked constructor does, so that the two forms agree bit
+    // for bit when S and T differ.
+    x = T (v.x / v.w);
+    y = T (v.y / v.w);
+    z = T (v.z / v.w);
 }
 
 template <class T>
